@@ -23,7 +23,40 @@ pub const FAIL: usize = 3;
 /// like FAIL, but only tape-growth requests (hook IN_TAPE_GROWTH) are counted
 pub const FAIL_TAPE: usize = 4;
 
+/// the k-th `mmap` asking for executable memory is refused (the JIT's code region)
+pub const FAIL_MMAP: usize = 5;
+
 pub struct VAlloc;
+
+/// `mmap` of the process, interposed: the baseline JIT maps its code region directly, so a refusal
+/// by the operating system cannot be played through the global allocator.  Everything is passed on
+/// to the system call except, in mode FAIL_MMAP while armed, the k-th request for executable memory.
+#[no_mangle]
+pub unsafe extern "C" fn mmap(
+    addr: *mut libc::c_void,
+    len: libc::size_t,
+    prot: libc::c_int,
+    flags: libc::c_int,
+    fd: libc::c_int,
+    off: libc::off_t,
+) -> *mut libc::c_void {
+    if ARMED.load(SeqCst) && MODE.load(SeqCst) == FAIL_MMAP && (prot & libc::PROT_EXEC) != 0 {
+        let n = COUNT.fetch_add(1, SeqCst);
+        if n == FAIL_K.load(SeqCst) {
+            FAILED.fetch_add(1, SeqCst);
+            let note = b"{\"refusednote\":1}\n";
+            libc::write(1, note.as_ptr() as *const _, note.len());
+            *libc::__errno_location() = libc::ENOMEM;
+            return libc::MAP_FAILED;
+        }
+    }
+    let r = libc::syscall(libc::SYS_mmap, addr, len, prot, flags, fd, off);
+    if (-4095..0).contains(&r) {
+        *libc::__errno_location() = -r as libc::c_int;
+        return libc::MAP_FAILED;
+    }
+    r as *mut libc::c_void
+}
 
 static ARMED: AtomicBool = AtomicBool::new(false);
 static MODE: AtomicUsize = AtomicUsize::new(SYS);
